@@ -563,6 +563,22 @@ pub fn upload_case(id: &str, toks: &[&str], base: &Path, out: &mut impl Write) {
             };
             let leftovers: Vec<String> = found.iter().filter(|(n, _)| *n != name).map(|(n, _)| if n.ends_with(".upload") { "upload".to_string() } else { n.chars().take(12).collect() }).collect();
             writeln!(out, "{id} up {k} body={kind} status={} final={fin} leftovers={}", resp.status, leftovers.join(",")).unwrap();
+            // a stored blob moved (by its owner, valid signature) to a destination whose NAME is not its hash
+            if kind == "correct" && k == 0 {
+                let other_name = hex::encode(Sha256::digest(b"not the content of that blob"));
+                let dest_secret = SecretId::new_v4();
+                let headers = vec![
+                    ("x-sos-account-id".to_string(), a.id.to_string()),
+                    ("Authorization".to_string(), format!("Bearer {}", sig_token(&a.signer, path.as_bytes()).await)),
+                ];
+                let target = format!("{path}?connection_id=c17&vault_id={folder}&secret_id={dest_secret}&name={other_name}");
+                let resp = http(&addr, "POST", &target, &headers, &[]).await;
+                tokio::time::sleep(std::time::Duration::from_millis(20)).await;
+                let mut found: Vec<(String, Vec<u8>)> = vec![];
+                walk(&srv_dir, &dest_secret.to_string(), &mut found);
+                let bad = found.iter().filter(|(n, b)| n.len() == 64 && hex::encode(Sha256::digest(b)) != *n).count();
+                writeln!(out, "{id} mv status={} stored={} name_not_hash={bad}", resp.status, found.len()).unwrap();
+            }
         }
         crate::acct::set_clock(0);
         drop(server);
